@@ -148,6 +148,38 @@ def check_scalars(st):
             st.violation('string-roundtrip', {'s': s.hex()})
 
 
+def check_short_input(st):
+    """a value that stops short of its own length is refused, not completed with zeroes: every fixed-width reader on every shorter buffer, and
+    a whole KEXINIT / SSH-1 public key message cut by 1..8 bytes"""
+    for nbytes, name in ((4, 'read_int'), (1, 'read_byte'), (1, 'read_bool')):
+        for have in range(0, nbytes):
+            buf = ReadBuf(b'\x01\x02\x03\x04'[:have])
+            st.execution(None, outcome=('short', name), root=('short', name, have), nontrivial=('short', name, have))
+            try:
+                v = getattr(buf, name)()
+            except Exception:
+                continue
+            st.violation('short-input:%s-returns-a-value-from-%d-bytes' % (name, have), {'value': repr(v)})
+    k = SSH2_Kex(OutputBuffer(), b'\x07' * 16, ['curve25519-sha256'], ['ssh-ed25519'], SSH2_KexParty(['aes256-ctr'], ['hmac-sha2-256'], ['none'], ['']),
+                 SSH2_KexParty(['aes256-ctr'], ['hmac-sha2-256'], ['none'], ['']), False, 0)
+    payload = k.payload
+    for cut in range(1, 9):
+        st.execution(None, outcome=('short-kexinit',), root=('short-kexinit', cut), nontrivial=('short-kexinit', cut))
+        try:
+            k2 = SSH2_Kex.parse(OutputBuffer(), payload[:-cut])
+        except Exception:
+            continue
+        st.violation('short-input:kexinit-missing-its-last-bytes-is-decoded', {'bytes_missing': cut, 're_encodes_to_the_same_bytes': k2.payload == payload[:-cut]})
+    full = wire.ssh1_pubkey_payload(0x48, 0x0c, 1024, 768)
+    for cut in (1, 2, 3, 4, 5, 8, 9, 12, 13, 40, 140):
+        st.execution(None, outcome=('short-pkm',), root=('short-pkm', cut), nontrivial=('short-pkm', cut))
+        try:
+            PKM.parse(full[:-cut])
+        except Exception:
+            continue
+        st.violation('short-input:ssh1-public-key-message-missing-its-last-bytes-is-decoded', {'bytes_missing': cut})
+
+
 def check_messages(st):
     alpha = [[], ['a'], ['curve25519-sha256', 'x@y'], ['naïve'], ['gss-gex-sha1-dZuIebMjgUqaxvbF7hDbAw==', 'b'], ['a', ' b', 'c ', '\td'],
              ['a', 'b', 'a'], ['x@y', 'x@y'], ['', 'a', '', 'a']]        # a name may be listed twice: the message says so twice
@@ -722,6 +754,7 @@ def run(tier, seed):
                           'check_line': caller.lineno if caller else None})
     family(check_scalars, st)
     family(check_messages, st)
+    family(check_short_input, st)
     family(check_ssh1, st)
     family(check_crc_threads, st, tier)
     family(check_op_sequences, st, 4 if tier == 'quick' else 5)
